@@ -776,6 +776,10 @@ def cmd_scancel(st, argv, stdin, cwd, store):
             err += "scancel: error: Kill job error on job id %s: Access/permission denied\n" % i
             continue
         _cancel(st, store, j)
+        if st["config"].get("scancel_lingers"):
+            # the controller keeps a cancelled job (state CA) in the queue listing for a while (MinJobAge), while the
+            # accounting database may still show what it knew before
+            j["in_queue"] = True
         if verbose:
             err += "scancel: Terminating job %s\n" % i
     # the quirk gwf's own comment describes: exit status 0 even on failure
